@@ -46,6 +46,12 @@ def cases(draw, tier="quick"):
     nf = draw(st.integers(1, 9))
     idx = draw(st.lists(st.integers(0, len(POOL) - 1), min_size=nf, max_size=nf, unique=True))
     fields = [POOL[i] for i in idx]
+    dup = draw(st.integers(0, 2 ** 16)) % 6 == 0
+    if dup:
+        # a header that states a name twice (the reader numbers the repeat; menu's listing reads the header itself and
+        # must not show an invented name).  Only the listings are asserted for such headers: which row of a min/max
+        # table belongs to which of two equally named fields is not something the statement settles.
+        fields.insert(draw(st.integers(0, len(fields))), fields[draw(st.integers(0, len(fields) - 1))])
     if draw(st.sampled_from([False, False, True])):
         fields = [f for f in fields if not f.startswith("Y(")] or ["phi"]
     spec = draw(plotgen.plot_specs(thin=True, level_prefix=True, max_cells=1200 if tier == "quick" else 4000, fields=fields,
@@ -54,6 +60,8 @@ def cases(draw, tier="quick"):
     opts = draw(st.sampled_from([dict(), dict(min_max=True), dict(finest_lv=True), dict(min_max=True, finest_lv=True),
                                  dict(description=True), dict(every=True), dict(has_var=True),
                                  dict(min_max=True, description=True), dict(), dict(min_max=True)]))
+    if dup:
+        opts = dict(description=True) if opts.get("description") else dict()
     # directory names with dots (time stamps, .old copies) beside the usual one
     return dict(spec=spec, opts=opts, slash=draw(st.booleans()),
                 pname=draw(st.sampled_from(["plt00100", "plt00100", "plt_t0.25", "plt00100.old", "plt.a.b"])))
@@ -233,7 +241,7 @@ def check_case(case, ctx):
                 v.append(f"menu default listing does not name every header field exactly once: fields {fields} -> "
                          f"expected entries {exp}, listed {toks} (wrong count {missing}, unexpected {extra})")
         sb = blocks.get("Species found in file:")
-        species = sorted(f[2:-1] for f in fields if f.startswith("Y("))
+        species = sorted(set(f[2:-1] for f in fields if f.startswith("Y(")))
         if species:
             stoks = " ".join(sb or []).split()
             if sorted(stoks) != species:
@@ -250,7 +258,9 @@ def check_case(case, ctx):
             v.append(f"menu description table does not list every field entry exactly once: {names} vs {exp}")
     ctx.nontrivial((nf % 2 == 1 and nf >= 3) or not has_species or related or nonfinite_t or nonfinite_x)
     # ---- marinate (3D only: it builds the ghost map)
-    if plot.ndims == 3:
+    if len(set(fields)) != len(fields):
+        ctx.label("repeated-field-name (listings only)")
+    elif plot.ndims == 3:
         import amr_kitchen.marinate as marinate
         from amr_kitchen import PlotfileCooker
         arg = pname + "/" if case["slash"] else pname
